@@ -364,8 +364,10 @@ class Gen:
                 ops.append(("enqueue", rng.choice(self.events), pay))
             x = rng.random()
             pay += 1
-            if x < 0.35:
+            if x < 0.25:
                 ops.append(("drain", self.val(gids), []))
+            elif x < 0.35:
+                ops.append(("drain1", self.val(gids), []))
             elif x < 0.45:
                 ops.append(("stop", []))
                 ops.append(("start", self.val(gids), []))
